@@ -143,6 +143,19 @@ def replay(ctx, st, idx):
             wy = [model_arr(m) for m in res['ity']]
             if len(items) != len(wx) or any(not (same(a, obs(it.x)) and same(b, obs(it.y))) for a, b, it in zip(wx, wy, items)):
                 return ctx.violation(sig + 'iter', 'iteration differs from iterating x and y', case)
+            # iterations are independent of each other, as they are for the x and y arrays: two at once (zip of the coordinate with
+            # itself, nested loops, two handles advanced alternately) each see every element
+            both = list(zip(p, p))
+            nested = sum(1 for _a in p for _b in p)
+            h1, h2 = iter(p), iter(p)
+            alt = []
+            for _ in range(len(items)):
+                alt.append((next(h1), next(h2)))
+            if (len(both) != len(items) or nested != len(items) ** 2
+                    or any(not (same(obs(a.x), obs(b.x)) and same(obs(a.y), obs(b.y)) and same(obs(a.x), obs(it.x))) for (a, b), it in zip(both, items))
+                    or any(not (same(obs(a.x), obs(it.x)) and same(obs(b.y), obs(it.y))) for (a, b), it in zip(alt, items))):
+                return ctx.violation(sig + 'iter-concurrent', f'two iterations over the same coordinate at once: zip gives {len(both)} pairs, nested loops {nested} steps, '
+                                     f'{len(items)} elements', case)
         # xy is the pair (x, y); copy() is an equal coordinate that shares no array with the original
         xy = p.xy
         if not (isinstance(xy, tuple) and len(xy) == 2 and same(obs(p.x), obs(xy[0])) and same(obs(p.y), obs(xy[1]))):
